@@ -20,7 +20,8 @@ OUTER = [
     # every kept line contains a registered filter
     "forall(i, kept, exists(f, old(allowlist), f in lines[i]))",
     # the first processed (= last in the file) line containing a filter is kept
-    "forall(f, old(allowlist), forall(k, range(0, i_0), implies(f in lines[it_0[k]] and forall(k2, range(0, k), not (f in lines[it_0[k2]])), it_0[k] in kept)))",
+    "forall(f, old(allowlist), forall(i, range(len(lines) - i_0, len(lines)), implies(f in lines[i] and forall(i2, range(i + 1, len(lines)), not (f in lines[i2])), i in kept)))",
+    "i_0 <= len(lines)",
     # a processed line that was dropped contains only filters whose budget is used up (they left the allow list for good)
     "forall(k, range(0, i_0), implies(it_0[k] not in kept, forall(f, old(allowlist), implies(f in lines[it_0[k]], f not in allowlist))))",
 ]
